@@ -263,17 +263,88 @@ def altloc_atoms(rng, lines, n=1):
     return out
 
 
+def salt_bridge_twins():
+    """1FTJ chain A with LYS 251 renumbered to 210A: LYS 210 and LYS 210A then share the printed label, and both are salt-bridged
+    to GLU 198 (determinants towards both sit side by side in one list)"""
+    t = dict(test_files(["1FTJ-Chain-A"]))["1FTJ-Chain-A"]
+    return [setcols(setcols(l, 22, 26, " 210"), 26, 27, "A") if is_atom(l) and l[17:20] == "LYS" and l[22:26] == " 251" else l for l in lines_of(t)]
+
+
+def ss_fragment():
+    """two short peptides of 3SGB joined by the Cys 42 - Cys 58 disulfide bridge (chain E residues 41-43 and 56-59)"""
+    t = dict(test_files(["3SGB"]))["3SGB"]
+    a = [l for l in lines_of(t) if l.startswith("ATOM") and l[21] == "E" and l[26] == " " and 41 <= int(l[22:26]) <= 43]
+    b = [l for l in lines_of(t) if l.startswith("ATOM") and l[21] == "E" and l[26] == " " and 56 <= int(l[22:26]) <= 59]
+    return a + ["TER   \n"] + b + ["TER   \n"]
+
+
+def twin_residues(rng, lines):
+    """residue k+1 of some chain renumbered to 'k A' (an insertion-coded twin): (lines, (k, k+1)) or None"""
+    items = split_residues(lines)
+    res = [k for k, it in enumerate(items) if it[0] == "res" and it[2][0].startswith("ATOM")]
+    cand = [(res[i], res[i + 1]) for i in range(len(res) - 1) if items[res[i]][2][0][21] == items[res[i + 1]][2][0][21] and items[res[i]][2][0][26] == " "]
+    if not cand:
+        return None
+    a, b = cand[rng.randrange(len(cand))]
+    num = items[a][2][0][22:26]
+    tw = list(items)
+    tw[b] = ("res", None, [setcols(setcols(l, 22, 26, num), 26, 27, "A") for l in items[b][2]])
+    return flatten(tw), (int(num), int(items[b][2][0][22:26]))
+
+
+def same_type_twins(rng, lines, types=("LYS", "ASP", "GLU", "ARG", "HIS", "TYR", "CYS")):
+    """two residues of one ionizable type in one chain given the same number, the later one with insertion code 'A':
+    their groups (and every determinant towards them) then carry the same printed label.  None if there is no such pair."""
+    items = split_residues(lines)
+    by = {}
+    for k, it in enumerate(items):
+        if it[0] == "res" and it[2][0].startswith("ATOM") and it[1][3] in types and it[1][2] == " ":
+            by.setdefault((it[1][0], it[1][3]), []).append(k)
+    pairs = [(v[i], v[j]) for v in by.values() for i in range(len(v)) for j in range(i + 1, len(v))]
+    if not pairs:
+        return None
+    a, b = pairs[rng.randrange(len(pairs))]
+    num = items[a][2][0][22:26]
+    if any(it[0] == "res" and k not in (a, b) and it[2][0][21] == items[a][2][0][21] and it[2][0][22:26] == num for k, it in enumerate(items)):
+        return None
+    tw = list(items)
+    tw[b] = ("res", None, [setcols(setcols(l, 22, 26, num), 26, 27, "A") for l in items[b][2]])
+    return flatten(tw)
+
+
+def add_ions(rng, lines, n=2, name="CA"):
+    """`n` ions of one kind in the chain of (and 3-5 A from) an acidic side chain, numbered consecutively: hetero groups that
+    share a printed label and differ in residue number.  None without an ASP/GLU."""
+    acids = [l for l in lines if l.startswith("ATOM") and ((l[17:20] == "ASP" and l[12:16].strip() == "CG") or (l[17:20] == "GLU" and l[12:16].strip() == "CD"))]
+    if not acids:
+        return None
+    c = acids[rng.randrange(len(acids))]
+    x, y, z = coords(c)
+    out = list(lines)
+    for k in range(n):
+        while True:
+            v = [rng.uniform(-1, 1) for _ in range(3)]
+            r = sum(q * q for q in v) ** 0.5
+            if 0.2 < r <= 1.0:
+                break
+        d = rng.uniform(3.2, 5.0)
+        p = [round(x + d * v[0] / r, 3), round(y + d * v[1] / r, 3), round(z + d * v[2] / r, 3)]
+        l = "HETATM%5d %-4s %3s %1s%4d    %8.3f%8.3f%8.3f  1.00  0.00          %2s\n" % (9000 + k, name, name.rjust(3), c[21], 900 + k, p[0], p[1], p[2], name.rjust(2))
+        out.append(l)
+    return out
+
+
 SIDE_CHAIN_ENDS = {"ASP": ("OD1", "OD2"), "GLU": ("OE1", "OE2"), "HIS": ("ND1", "NE2", "CD2", "CE1"), "TYR": ("OH",),
                    "ARG": ("NE", "NH1", "NH2"), "SER": ("OG",), "THR": ("OG1",), "ASN": ("OD1", "ND2"), "GLN": ("OE1", "NE2"),
                    "TRP": ("NE1",)}
 
 
-def truncate_sidechains(rng, lines, n=1):
+def truncate_sidechains(rng, lines, n=1, types=None):
     """incomplete residues as found in low-resolution structures: the hetero atoms at the end of up to `n` side chains are
     missing (an ASP keeps CG but has no OD1/OD2, a HIS stops at CG, ...)"""
-    keys = sorted({res_key(l) for l in lines if is_atom(l) and l[17:20] in SIDE_CHAIN_ENDS})
+    keys = sorted({res_key(l) for l in lines if is_atom(l) and l[17:20] in (types or SIDE_CHAIN_ENDS)})
     if not keys:
-        return lines
+        return lines if types is None else truncate_sidechains(rng, lines, n)
     chosen = set(rng.sample(keys, min(n, len(keys))))
     return [l for l in lines if not (is_atom(l) and res_key(l) in chosen and l[12:16].strip() in SIDE_CHAIN_ENDS[l[17:20]])]
 
